@@ -312,8 +312,12 @@ def model_fields(m, f):
 def replay_format(Y, M, D, h, m, s, us, aware, pname, cname):
     """real format_datetime on a real STIXdatetime vs the integer-arithmetic oracle"""
     p, c = Precision[pname], PrecisionConstraint[cname]
-    d = STIXdatetime(Y, M, D, h, m, s, us, pytz.utc if aware else None, precision=p, precision_constraint=c)
-    return utils.format_datetime(d) == oracle_text_py(Y, M, D, h, m, s, us, p, c)
+    # "aware" covers every tzinfo with offset 0: the pytz singleton (astimezone returns the same object) and others
+    for tz in ((pytz.utc, dt.timezone.utc) if aware else (None,)):
+        d = STIXdatetime(Y, M, D, h, m, s, us, tz, precision=p, precision_constraint=c)
+        if utils.format_datetime(d) != oracle_text_py(Y, M, D, h, m, s, us, p, c):
+            return False
+    return True
 
 
 def replay_parse_format(text, pname, cname):
